@@ -2,10 +2,26 @@
 
 RC_LIBS = ["-lrapidcheck"]
 
+def _sim(qt, init, mx):
+    return {"sources": ["harness/sim_main.cpp", "engine/sim_interpose.cpp", "engine/rc_driver.cpp"], "flavour": "asan",
+            "libs": RC_LIBS, "harness": "sim",
+            "defines": [f"SIM_QUEUE_TYPE={qt}", f"SIM_INITIAL_CAP={init}", f"SIM_MAX_CAP={mx}"]}
+
+
 BINARIES = {
+    "sim_bb256": _sim("BoundedBlocking", 256, 256),
+    "sim_bb1k": _sim("BoundedBlocking", 1024, 1024),
+    "sim_bb4k": _sim("BoundedBlocking", 4096, 4096),
+    "sim_ub": _sim("UnboundedBlocking", 128, 4096),
+    "sim_ubs": _sim("UnboundedBlocking", 64, 512),
+    "sim_bd256": _sim("BoundedDropping", 256, 256),
+    "sim_bd1k": _sim("BoundedDropping", 1024, 1024),
+    "sim_ud": _sim("UnboundedDropping", 128, 1024),
     # name: sources (first = harness TU), flavour, harness name (for replay lookup)
     "wmm": {"sources": ["harness/queue_wmm.cpp", "engine/rc_driver.cpp"], "flavour": "asan", "libs": RC_LIBS,
             "harness": "wmm", "probe_params": {}},
+    "fmtcat": {"sources": ["harness/fmtcat.cpp"] + [f"harness/fmtcat_shapes_{i}.cpp" for i in range(1, 9)] + ["engine/rc_driver.cpp"],
+               "flavour": "asan", "libs": RC_LIBS, "harness": "fmtcat"},
     "pattern": {"sources": ["harness/pattern.cpp", "engine/rc_driver.cpp"], "flavour": "asan", "libs": RC_LIBS, "harness": "pattern"},
     "named": {"sources": ["harness/named.cpp", "engine/rc_driver.cpp"], "flavour": "asan", "libs": RC_LIBS, "harness": "named"},
     "rot": {"sources": ["harness/rotating.cpp", "engine/rc_driver.cpp"], "flavour": "asan", "libs": RC_LIBS, "harness": "rot"},
@@ -21,6 +37,8 @@ BINARIES = {
 
 # known-finding class -> binary that implements its probe
 CLASS_BIN = {
+    "fmtcat.direct_codec_nested_quoted": "fmtcat",
+    "fmtcat.positional_format_misread_as_named": "fmtcat",
     "pattern.runtime_metadata_contains_separator": "pattern",
     "pattern.runtime_metadata_with_named_args": "pattern",
     "named.escaped_close_after_placeholder": "named",
@@ -48,15 +66,16 @@ HOOKS = {
 ENGINES = {
     "wmm": {"path": "engine/wmm.h", "serves": ["C01", "C02", "C09"],
             "kind": "std::atomic retarget shim with per-location store history, vector clocks, coherence floors, choice-driven stale loads, coroutine scheduler, payload happens-before race detector"},
-    "rcdrv": {"path": "engine/rc_driver.cpp", "serves": ["C01", "C02", "C07", "C11", "C12", "C13", "C14", "C15", "C19"],
+    "rcdrv": {"path": "engine/rc_driver.cpp", "serves": ["C01", "C02", "C04", "C07", "C11", "C12", "C13", "C14", "C15", "C19"],
               "kind": "rapidcheck generator+shrinker over a vector<uint32_t> choice stream; in-process or fork-per-case execution; replay files"},
+    "fmtcat": {"path": "harness/fmtcat.cpp", "serves": ["C04"], "kind": "typed statement catalog (167 shapes in 8 TUs) with call-site fmt oracle and codec round trip"},
     "pattern": {"path": "harness/pattern.cpp", "serves": ["C12"], "kind": "direct + end-to-end PatternFormatter harness with independent reference substitution"},
     "named": {"path": "harness/named.cpp", "serves": ["C19"], "kind": "named-args / JSON sink harness through a manual backend"},
     "rot": {"path": "harness/rotating.cpp", "serves": ["C14", "C15"], "kind": "RotatingFileSink driver with file-system reference model and two-tier schedule oracle"},
     "alloc": {"path": "harness/alloc_catalog.cpp", "serves": ["C11"], "kind": "allocation-interposed statement catalog (-O2, no sanitizers)"},
     "crashkid": {"path": "harness/crashkid.cpp", "serves": ["C07"], "kind": "fork/exec fault injection: generated child programs, all boundaries x termination kinds"},
     "tsfmt": {"path": "harness/tsfmt.cpp", "serves": ["C13"], "kind": "TimestampFormatter vs libc strftime"},
-    "check": {"path": "check", "serves": ["C01", "C02", "C07", "C11", "C12", "C13", "C14", "C15", "C19"],
+    "check": {"path": "check", "serves": ["C01", "C02", "C04", "C07", "C11", "C12", "C13", "C14", "C15", "C19"],
               "kind": "python3 driver: builds harnesses from /repo's working tree, seeds, tiers, replays, known findings, evidence"},
 }
 
@@ -108,6 +127,26 @@ PROPERTIES = {
             {"bin": "wmm", "params": {"prop": "C02"},
              "quick": {"cases": 1500, "procs": 8, "maxlen": 700},
              "thorough": {"cases": 25000, "procs": 16, "maxlen": 1400}},
+        ],
+    },
+    "C04": {
+        "technique": "property-based differential testing: typed statement catalog with generated values and runtime format strings vs fmtquill::format at the call site; codec size round trip",
+        "level_text": ("Exploration: hundreds of thousands of generated statements per run over a catalog of 167 argument shapes "
+                       "(scalars, C strings incl. null/unterminated arrays, strings with NUL/non-printables, every quill/std "
+                       "container, optional/pair/tuple/chrono/path, deferred and direct user types, nested two deep, 1-14 "
+                       "variable-length arguments), runtime format strings with per-type spec grammar, arguments clobbered after "
+                       "the call; message equality, independent sanitiser, size pass == encode == decode advance with canaries. "
+                       "Held on everything generated."),
+        "level_note": ("Types are sampled from a catalog (not enumerated); containers/user types use {} only; wide strings and "
+                       "Windows paths out of scope; two known findings excluded by construction and probed."),
+        "rule": ("case = 1-3 back-to-back statements, each = (shape from the 167-shape catalog, runtime format string, generated "
+                 "values); non-trivial = a statement with >= 1 variable-length argument AND (>= 2 arguments OR a spec); "
+                 "distinct = FNV hash of the rendered case"),
+        "assumptions": ["fmtquill::format at the call site is the formatting reference", "default check_printable_char"],
+        "jobs": [
+            {"bin": "fmtcat",
+             "quick": {"cases": 25000, "procs": 8, "maxlen": 300},
+             "thorough": {"cases": 300000, "procs": 16, "maxlen": 400}},
         ],
     },
     "C07": {
